@@ -412,7 +412,7 @@ impl<'a> Reader<&'a [u8]> {
 //@extract slice_reader::Reader::read_to_end | src/reader/slice_reader.rs :: impl<'a> Reader<&'a [u8]> :: fn read_to_end | serves=C03,C12 expand=read_to_end macro_files=src/reader/mod.rs
  #[verifier::loop_isolation(false)]
  #[verifier::allow_complex_invariants]
- fn read_to_end(&mut self, end: QName) -> (r: Result<Span>)
+ pub(crate) fn read_to_end(&mut self, end: QName) -> (r: Result<Span>)
         requires
             old(self).inv(),
             !(old(self).state.state is Done) ==> old(self).state.offset + old(self).reader.remaining().len() <= u64::MAX,
@@ -578,7 +578,7 @@ impl<R: BufRead> Reader<R> {
 //@extract buffered_reader::Reader::read_to_end_into | src/reader/buffered_reader.rs :: impl<R: BufRead> Reader<R> :: fn read_to_end_into | serves=C03,C12 expand=read_to_end macro_files=src/reader/mod.rs
  #[verifier::loop_isolation(false)]
  #[verifier::allow_complex_invariants]
- fn read_to_end_into(&mut self, end: QName, buf: &mut Vec<u8>) -> (r: Result<Span>)
+ pub(crate) fn read_to_end_into(&mut self, end: QName, buf: &mut Vec<u8>) -> (r: Result<Span>)
         requires
             old(self).inv(),
             !(old(self).state.state is Done) ==> old(self).state.offset + old(self).reader.remaining().len() <= u64::MAX,
